@@ -42,6 +42,7 @@ type c03Case struct {
 	NoTS       bool       `json:"no_timestamps,omitempty"` // single group only: the packets carry no timestamp TLV (legal: the rate is then not measured)
 	Ring       bool       `json:"ring,omitempty"` // the producers are real AbacoRings over real shared-memory ring buffers the harness writes into
 	Slot       int        `json:"slot,omitempty"`       // ring mode: packet (slot) size announced in the ring description (0: 8192)
+	StartMid   int        `json:"start_mid_packet,omitempty"` // ring mode: the source is started while the data producer is this many bytes into a packet
 	PriorSlot  int        `json:"prior_slot,omitempty"` // ring mode: the same AbacoRing objects were started and stopped before, on rings with this slot size
 	Seed       int        `json:"seed"`
 }
@@ -93,6 +94,7 @@ func c03Value(seed, g, k int, frame int64) int32 {
 
 type c03Producer struct {
 	slot    int
+	midSkip int // ring mode: so many bytes of the first packet are in the ring already
 	ring    *AbacoRing             // ring mode: the real reader ...
 	writer  *ringbuffer.RingBuffer // ... and the harness' writing end of the same shared memory
 	ringErr string
@@ -132,6 +134,10 @@ func (p *c03Producer) viaRing(ps []*packets.Packet) ([]*packets.Packet, error) {
 		b := q.Bytes()
 		slot := make([]byte, (len(b)+p.slot-1)/p.slot*p.slot)
 		copy(slot, b)
+		if p.midSkip > 0 { // the beginning of this packet was written before the source was started
+			slot = slot[p.midSkip:]
+			p.midSkip = 0
+		}
 		if n, err := p.writer.Write(slot); err != nil || n != len(slot) {
 			p.ringErr = fmt.Sprintf("harness: ring took %d of %d bytes (%v)", n, len(slot), err)
 			return nil, fmt.Errorf("%s", p.ringErr)
@@ -368,6 +374,7 @@ func c03Run(c c03Case) (v vVerdict) {
 	}
 	as.producers = as.producers[:0]
 	ringMode := c.Ring
+	startedMid := false
 	slotSize := c.Slot
 	if slotSize == 0 {
 		slotSize = 8192
@@ -435,6 +442,18 @@ func c03Run(c c03Case) (v vVerdict) {
 			}
 			defer func() { w.Close(); w.Unlink() }()
 			pr.writer = w
+			if c.StartMid > 0 && c.StartMid < slotSize && len(pr.sample) > 0 {
+				// the data producer never stops: one stale packet and the first part of the next one are in the ring when the
+				// source attaches; it must begin with a whole packet
+				stale := make([]byte, slotSize)
+				copy(stale, pr.sample[0].Bytes())
+				first := make([]byte, slotSize)
+				copy(first, pr.sample[0].Bytes())
+				w.Write(stale)
+				w.Write(first[:c.StartMid])
+				pr.midSkip = c.StartMid
+				startedMid = true
+			}
 		}
 	}
 	for _, pr := range prods {
@@ -600,6 +619,9 @@ func c03Run(c c03Case) (v vVerdict) {
 		if c.PriorSlot != 0 && c.PriorSlot != slotSize {
 			v.Classes = append(v.Classes, "ring-restarted-with-other-packet-size")
 		}
+		if startedMid {
+			v.Classes = append(v.Classes, "ring-attached-mid-packet")
+		}
 	}
 	if lagging {
 		v.Classes = append(v.Classes, "lagging-group")
@@ -629,6 +651,7 @@ func c03Gen(t *rapid.T) c03Case {
 	if c.Ring {
 		c.Slot = rapid.SampledFrom([]int{0, 0, 4096, 16384}).Draw(t, "slot")
 		c.PriorSlot = rapid.SampledFrom([]int{0, 0, 8192, 4096, 16384}).Draw(t, "priorslot")
+		c.StartMid = rapid.SampledFrom([]int{0, 0, 8, 100, 3000, 4088}).Draw(t, "startmid")
 	}
 	first := rapid.SampledFrom([]int{0, 1, 100}).Draw(t, "firstchan")
 	var groups []c03Group
